@@ -3,8 +3,13 @@ import TbotVerif.Props.LifeLemmas
 
     The operational model of `Machine.__enter__/__exit__`, `ExitStack` and `PowerControl`
     (`Model/Life.lean`) satisfies the declarative life-cycle specification `Spec.C13`
-    (`Spec/Life.lean`) for EVERY composition, fault assignment and balanced nesting history
-    (induction on the step list / the body / the session list; nothing is bounded). -/
+    (`Spec/Life.lean`) for EVERY composition — with any number of steps whose context manager
+    HANDLES the exception passing through it —, fault assignment and balanced nesting history
+    (induction on the step list / the body / the session list; nothing is bounded).
+
+    Theorems that existed before handling steps were modelled keep their statement; where the
+    statement is about the exception that reaches the caller they carry the hypothesis "no step
+    handles" (`hno`) and have a handling-aware sibling (`…_handling`). -/
 
 namespace C13
 open Life
@@ -15,14 +20,14 @@ def Frame.ev : Frame → Ev
   | .cm id => .exit id
   | .power id => .off id
 
-theorem nested_enter_silent (f : Faults) (delay : Nat) (steps : List Step) (m : Mach) (h : 1 ≤ m.rc) :
-    machEnter f delay steps m = ([], none, { m with rc := m.rc + 1 }) := by
+theorem nested_enter_silent (f : Faults) (H : Handles) (delay : Nat) (steps : List Step) (m : Mach) (h : 1 ≤ m.rc) :
+    machEnter f H delay steps m = ([], none, { m with rc := m.rc + 1 }) := by
   unfold machEnter
   have : m.rc + 1 > 1 := by omega
   simp [this]
 
-theorem nested_exit_silent (f : Faults) (exc : Option Tag) (m : Mach) (h : 2 ≤ m.rc) :
-    machExit f exc m = ([], exc, { m with rc := m.rc - 1 }) := by
+theorem nested_exit_silent (f : Faults) (H : Handles) (exc : Option Tag) (m : Mach) (h : 2 ≤ m.rc) :
+    machExit f H exc m = ([], exc, { m with rc := m.rc - 1 }) := by
   unfold machExit
   have : (m.rc - 1 == 0) = false := by
     simp; omega
@@ -36,20 +41,47 @@ theorem frame_run (f : Faults) (fr : Frame) (env : Env) :
     simp only [Frame.run, Frame.ev, faultTag, powerOff]
     split <;> simp [*]
 
-theorem unwind_spec (f : Faults) : ∀ (cx : List Frame) (exc : Option Tag) (env : Env),
-    (unwind f cx exc env).1 = cx.map Frame.ev
-    ∧ (unwind f cx exc env).2.1 = lastRaised f (cx.map Frame.ev) exc
-  | [], exc, env => by simp [unwind, lastRaised]
-  | fr :: rest, exc, env => by
+theorem frame_handles (H : Handles) (fr : Frame) : fr.handles H = handlesEv H (Frame.ev fr) := by
+  cases fr <;> rfl
+
+theorem flight_after_raised (fl : Flight) (r : Option Tag) (h : Bool) :
+    (fl.after r h).raised = match r with
+      | some t => some t
+      | none => if h then none else fl.raised := by
+  cases r with
+  | some t => rfl
+  | none => cases h <;> rfl
+
+/-- **The exit stack, with handling steps.**  Every registered callback runs, in stack order,
+    whatever is handled; what the stack raises at the end is the last tear-down fault after which
+    no handling step exited cleanly. -/
+theorem unwind_spec_handling (f : Faults) (H : Handles) : ∀ (cx : List Frame) (fl : Flight) (env : Env),
+    (unwind f H cx fl env).1 = cx.map Frame.ev
+    ∧ (unwind f H cx fl env).2.1.raised = pendingFault f H (cx.map Frame.ev) fl.raised
+  | [], fl, env => by simp [unwind, pendingFault]
+  | fr :: rest, fl, env => by
     obtain ⟨h1, h2⟩ := frame_run f fr env
     unfold unwind
     generalize hr : fr.run f env = R at h1 h2
     obtain ⟨ev, r, env1⟩ := R
     simp only at h1 h2
     subst h1 h2
-    have ih := unwind_spec f rest ((faultTag f (Frame.ev fr)).or exc) env1
-    simp only [List.map_cons, lastRaised_cons]
-    exact ⟨by simp [ih.1], ih.2⟩
+    have ih := unwind_spec_handling f H rest (fl.after (faultTag f (Frame.ev fr)) (fr.handles H)) env1
+    simp only [List.map_cons, pendingFault_cons]
+    refine ⟨by simp [ih.1], ?_⟩
+    rw [ih.2, flight_after_raised, frame_handles]
+    cases faultTag f (Frame.ev fr) <;> rfl
+
+/-- the exit stack of a composition without handling steps: the last exception raised wins, an
+    exception that nobody replaced stays in flight -/
+theorem unwind_spec (f : Faults) (H : Handles) (hno : ∀ i, H i = false) (cx : List Frame) (exc : Option Tag) (env : Env) :
+    (unwind f H cx { exc := exc } env).1 = cx.map Frame.ev
+    ∧ (unwind f H cx { exc := exc } env).2.1.raised.or exc = lastRaised f (cx.map Frame.ev) exc := by
+  obtain ⟨h1, h2⟩ := unwind_spec_handling f H cx { exc := exc } env
+  refine ⟨h1, ?_⟩
+  have hH : H = fun _ => false := funext hno
+  rw [h2, hH, pendingFault_nohandle f _ _ _ (fun e _ => handlesEv_none e)]
+  exact lastRaised_or f _ none exc
 
 theorem noSleep_power_evs (id slp : Nat) (tail : List Ev) :
     noSleep (Ev.check id :: ((if slp > 0 then [Ev.sleep slp] else []) ++ (Ev.on id :: tail)))
@@ -60,7 +92,7 @@ theorem enterStep_ok (f : Faults) (delay : Nat) (s : Step) (env env1 : Env) (ev 
     (h : enterStep f delay s env = (ev, .ok fr, env1)) :
     noSleep ev = beginEvs s ∧ (∀ e ∈ beginEvs s, raises f e = false)
       ∧ fr.toList.map Frame.ev = teardown f (beginEvs s) := by
-  obtain ⟨id, k⟩ := s
+  obtain ⟨id, k, hd⟩ := s
   cases k
   case power =>
     simp only [enterStep, powerOn] at h
@@ -98,19 +130,21 @@ theorem enterStep_err (f : Faults) (delay : Nat) (s : Step) (env env1 : Env) (ev
     (h : enterStep f delay s env = (ev, .error t, env1)) :
     noSleep ev = uptoFirst (raises f) (beginEvs s) ++ teardown f (uptoFirst (raises f) (beginEvs s))
       ∧ (beginEvs s).any (raises f) = true
-      ∧ some t = lastRaised f (noSleep ev) none := by
-  obtain ⟨id, k⟩ := s
+      ∧ some t = lastRaised f (noSleep ev) none
+      ∧ ownCleanup f (uptoFirst (raises f) (beginEvs s)) = teardown f (uptoFirst (raises f) (beginEvs s))
+      ∧ stackTeardown f (uptoFirst (raises f) (beginEvs s)) = [] := by
+  obtain ⟨id, k, hd⟩ := s
   cases k
   case power =>
     simp only [enterStep, powerOn] at h
     by_cases hc : f (.check id) = true
     · simp only [hc, if_true, Prod.mk.injEq, Except.error.injEq] at h
       obtain ⟨rfl, rfl, rfl⟩ := h
-      simp [beginEvs, uptoFirst, raises, faultTag, hc, teardown, teardownOf, noSleep, isSleep, lastRaised]
+      simp [beginEvs, uptoFirst, raises, faultTag, hc, teardown, teardownOf, noSleep, isSleep, lastRaised, ownCleanup, stackTeardown]
     by_cases hn : f (.refused id) = true
     · simp only [hc, hn, Bool.false_eq_true, if_false, if_true, Prod.mk.injEq, Except.error.injEq] at h
       obtain ⟨rfl, rfl, rfl⟩ := h
-      simp [beginEvs, uptoFirst, raises, faultTag, hc, hn, teardown, teardownOf, noSleep, isSleep, lastRaised]
+      simp [beginEvs, uptoFirst, raises, faultTag, hc, hn, teardown, teardownOf, noSleep, isSleep, lastRaised, ownCleanup, stackTeardown]
     by_cases ho : f (.on id) = true
     · simp only [hc, hn, ho, Bool.false_eq_true, if_false, if_true, Prod.mk.injEq, Except.error.injEq, powerOff] at h
       by_cases hf : f (.off id) = true
@@ -119,27 +153,27 @@ theorem enterStep_err (f : Faults) (delay : Nat) (s : Step) (env env1 : Env) (ev
         have := noSleep_power_evs id (sleepFor delay env) [.off id]
         simp only [List.cons_append, List.append_assoc, List.nil_append] at this ⊢
         rw [this]
-        simp [beginEvs, uptoFirst, raises, faultTag, hc, hn, ho, hf, teardown, teardownOf, noSleep, isSleep, lastRaised]
+        simp [beginEvs, uptoFirst, raises, faultTag, hc, hn, ho, hf, teardown, teardownOf, noSleep, isSleep, lastRaised, ownCleanup, stackTeardown]
       · simp only [hf, Bool.false_eq_true, if_false] at h
         obtain ⟨rfl, rfl, rfl⟩ := h
         have := noSleep_power_evs id (sleepFor delay env) [.off id]
         simp only [List.cons_append, List.append_assoc, List.nil_append] at this ⊢
         rw [this]
-        simp [beginEvs, uptoFirst, raises, faultTag, hc, hn, ho, hf, teardown, teardownOf, noSleep, isSleep, lastRaised]
+        simp [beginEvs, uptoFirst, raises, faultTag, hc, hn, ho, hf, teardown, teardownOf, noSleep, isSleep, lastRaised, ownCleanup, stackTeardown]
     · simp [hc, hn, ho] at h
   case hook =>
     simp only [enterStep] at h
     by_cases hh : f (.hook id) = true
     · simp only [hh, if_true, Prod.mk.injEq, Except.error.injEq] at h
       obtain ⟨rfl, rfl, rfl⟩ := h
-      simp [beginEvs, uptoFirst, noSleep, isSleep, raises, faultTag, hh, teardown, teardownOf, lastRaised]
+      simp [beginEvs, uptoFirst, noSleep, isSleep, raises, faultTag, hh, teardown, teardownOf, lastRaised, ownCleanup, stackTeardown]
     · simp [hh] at h
   all_goals
     simp only [enterStep] at h
     by_cases hh : f (.enter id) = true
     · simp only [hh, if_true, Prod.mk.injEq, Except.error.injEq] at h
       obtain ⟨rfl, rfl, rfl⟩ := h
-      simp [beginEvs, uptoFirst, noSleep, isSleep, raises, faultTag, hh, teardown, teardownOf, lastRaised]
+      simp [beginEvs, uptoFirst, noSleep, isSleep, raises, faultTag, hh, teardown, teardownOf, lastRaised, ownCleanup, stackTeardown]
     · simp [hh] at h
 
 theorem noSleep_frames (cx : List Frame) : noSleep (cx.map Frame.ev) = cx.map Frame.ev := by
@@ -149,18 +183,22 @@ theorem noSleep_frames (cx : List Frame) : noSleep (cx.map Frame.ev) = cx.map Fr
 
 /-- **Initialisation.**  For every step list, fault assignment, stack and environment: the begin
     callbacks that run are those of the steps in list order up to and including the first one that
-    raises; what is registered on the exit stack (plus the power-off already done by a failing
-    `poweron`) is exactly the tear-down owed for them; the exception is the last one raised. -/
-theorem enterSteps_spec (f : Faults) (delay : Nat) : ∀ (steps : List Step) (cx : List Frame) (env : Env),
-    ∃ extra, noSleep (enterSteps f delay steps cx env).1 = expectedInit steps f ++ extra
-      ∧ extra ++ (enterSteps f delay steps cx env).2.2.1.map Frame.ev
-          = teardown f (expectedInit steps f) ++ cx.map Frame.ev
-      ∧ (enterSteps f delay steps cx env).2.1 = lastRaised f (expectedInit steps f ++ extra) none
+    raises, followed by the clean-up that one does itself (the power-off of a failing `poweron`);
+    what is registered on the exit stack is exactly the tear-down of the steps that were started;
+    the exception is the last one raised. -/
+theorem enterSteps_split (f : Faults) (delay : Nat) : ∀ (steps : List Step) (cx : List Frame) (env : Env),
+    noSleep (enterSteps f delay steps cx env).1
+        = expectedInit steps f ++ ownCleanup f (expectedInit steps f)
+      ∧ (enterSteps f delay steps cx env).2.2.1.map Frame.ev
+          = stackTeardown f (expectedInit steps f) ++ cx.map Frame.ev
+      ∧ (enterSteps f delay steps cx env).2.1
+          = lastRaised f (expectedInit steps f ++ ownCleanup f (expectedInit steps f)) none
       ∧ ((enterSteps f delay steps cx env).2.1 = none →
-          (∀ e ∈ expectedInit steps f, raises f e = false) ∧ extra = [])
+          (∀ e ∈ expectedInit steps f, raises f e = false))
       ∧ ((enterSteps f delay steps cx env).2.1 ≠ none →
           (expectedInit steps f).all (fun e => !raises f e) = false)
-  | [], cx, env => ⟨[], by simp [enterSteps, expectedInit, uptoFirst, noSleep, teardown, lastRaised]⟩
+  | [], cx, env => by
+    simp [enterSteps, expectedInit, uptoFirst, noSleep, teardown, lastRaised, ownCleanup, stackTeardown]
   | s :: rest, cx, env => by
     unfold enterSteps
     cases hs : enterStep f delay s env with
@@ -168,58 +206,74 @@ theorem enterSteps_spec (f : Faults) (delay : Nat) : ∀ (steps : List Step) (cx
     obtain ⟨res, env1⟩ := R
     cases res with
     | error t =>
-      obtain ⟨h1, h2, h3⟩ := enterStep_err f delay s env env1 ev t hs
+      obtain ⟨h1, h2, h3, h4, h5⟩ := enterStep_err f delay s env env1 ev t hs
       have hexp : expectedInit (s :: rest) f = uptoFirst (raises f) (beginEvs s) := by
         simp only [expectedInit, List.flatMap_cons]
         exact uptoFirst_append_of_any h2
-      refine ⟨teardown f (uptoFirst (raises f) (beginEvs s)), ?_, ?_, ?_, ?_, ?_⟩
-      · simpa [hexp] using h1
-      · simp [hexp]
-      · simp only [hexp]; rw [← h1]; exact h3
+      refine ⟨?_, ?_, ?_, ?_, ?_⟩
+      · simpa [hexp, h4] using h1
+      · simp [hexp, h5]
+      · simp only [hexp, h4]; rw [← h1]; exact h3
       · intro h; simp at h
       · intro _
         rw [hexp]
         exact uptoFirst_all_not_of_any h2
     | ok fr =>
       obtain ⟨h1, h2, h3⟩ := enterStep_ok f delay s env env1 ev fr hs
-      obtain ⟨extra, i1, i2, i3, i4, i5⟩ := enterSteps_spec f delay rest (fr.toList ++ cx) env1
+      obtain ⟨i1, i2, i3, i4, i5⟩ := enterSteps_split f delay rest (fr.toList ++ cx) env1
       have hexp : expectedInit (s :: rest) f = beginEvs s ++ expectedInit rest f := by
         simp only [expectedInit, List.flatMap_cons]
         exact uptoFirst_append_of_none h2
+      obtain ⟨c1, c2⟩ := ownCleanup_append_of_none f (expectedInit rest f) h2
       simp only
-      refine ⟨extra, ?_, ?_, ?_, ?_, ?_⟩
-      · rw [noSleep_append, h1, i1, hexp, List.append_assoc]
-      · rw [i2, hexp, teardown_append, List.map_append, h3, List.append_assoc]
-      · rw [i3, hexp, List.append_assoc, lastRaised_append _ (beginEvs s), lastRaised_of_none f _ _ h2]
+      refine ⟨?_, ?_, ?_, ?_, ?_⟩
+      · rw [noSleep_append, h1, i1, hexp, c1, List.append_assoc]
+      · rw [i2, hexp, c2, List.map_append, h3, List.append_assoc]
+      · rw [i3, hexp, c1, List.append_assoc, lastRaised_append _ (beginEvs s), lastRaised_of_none f _ _ h2]
       · intro h
-        obtain ⟨a, b⟩ := i4 h
-        refine ⟨?_, b⟩
         intro e he
         rw [hexp] at he
         rcases List.mem_append.mp he with he | he
         · exact h2 e he
-        · exact a e he
+        · exact i4 h e he
       · intro h
         have := i5 h
         rw [hexp, List.all_append, this, Bool.and_false]
 
-theorem propagate_silent (f : Faults) : ∀ (d : Nat) (t : Tag) (m : Mach), m.rc = d + 1 →
-    propagate f d t m = ([], t, { m with rc := 1 })
+/-- the same in the form it had before handling steps were modelled: some part `extra` of the
+    tear-down owed has already run, the rest is registered -/
+theorem enterSteps_spec (f : Faults) (delay : Nat) (steps : List Step) (cx : List Frame) (env : Env) :
+    ∃ extra, noSleep (enterSteps f delay steps cx env).1 = expectedInit steps f ++ extra
+      ∧ extra ++ (enterSteps f delay steps cx env).2.2.1.map Frame.ev
+          = teardown f (expectedInit steps f) ++ cx.map Frame.ev
+      ∧ (enterSteps f delay steps cx env).2.1 = lastRaised f (expectedInit steps f ++ extra) none
+      ∧ ((enterSteps f delay steps cx env).2.1 = none →
+          (∀ e ∈ expectedInit steps f, raises f e = false) ∧ extra = [])
+      ∧ ((enterSteps f delay steps cx env).2.1 ≠ none →
+          (expectedInit steps f).all (fun e => !raises f e) = false) := by
+  obtain ⟨i1, i2, i3, i4, i5⟩ := enterSteps_split f delay steps cx env
+  refine ⟨ownCleanup f (expectedInit steps f), i1, ?_, i3, ?_, i5⟩
+  · rw [i2, teardown_split, List.append_assoc]
+  · intro h
+    exact ⟨i4 h, (ownCleanup_of_none f (i4 h)).1⟩
+
+theorem propagate_silent (f : Faults) (H : Handles) : ∀ (d : Nat) (t : Tag) (m : Mach), m.rc = d + 1 →
+    propagate f H d t m = ([], t, { m with rc := 1 })
   | 0, t, m, h => by
     simp only [propagate]
     cases m; simp_all
   | d + 1, t, m, h => by
     unfold propagate
-    rw [nested_exit_silent f (some t) m (by omega)]
+    rw [nested_exit_silent f H (some t) m (by omega)]
     simp only [Option.getD_some, List.nil_append]
-    rw [propagate_silent f d t _ (by simp; omega)]
+    rw [propagate_silent f H d t _ (by simp; omega)]
 
 /-- **Nested entries and exits do nothing.**  While the outermost `with m:` is open, a balanced
     body produces only its own events, touches neither the exit stack nor the environment, and
     leaves the counter at 1 — whether it completes or raises at any depth. -/
-theorem runBody_spec (f : Faults) (delay : Nat) (steps : List Step) : ∀ (ops : List Op) (d : Nat) (m : Mach),
+theorem runBody_spec (f : Faults) (H : Handles) (delay : Nat) (steps : List Step) : ∀ (ops : List Op) (d : Nat) (m : Mach),
     m.rc = d + 1 → balanced ops d = true →
-    runBody f delay steps ops d m
+    runBody f H delay steps ops d m
       = (expectedBody ops, lastRaised f (expectedBody ops) none, { m with rc := 1 })
   | [], d, m, h, hb => by
     simp only [balanced, beq_iff_eq] at hb
@@ -229,54 +283,78 @@ theorem runBody_spec (f : Faults) (delay : Nat) (steps : List Step) : ∀ (ops :
   | .opened :: ops, d, m, h, hb => by
     simp only [balanced] at hb
     unfold runBody
-    rw [nested_enter_silent f delay steps m (by omega)]
+    rw [nested_enter_silent f H delay steps m (by omega)]
     simp only [List.nil_append]
-    rw [runBody_spec f delay steps ops (d + 1) _ (by simp; omega) hb, expectedBody_cons_opened]
+    rw [runBody_spec f H delay steps ops (d + 1) _ (by simp; omega) hb, expectedBody_cons_opened]
     simp [lastRaised_cons, faultTag]
   | .closed :: ops, d, m, h, hb => by
     simp only [balanced, Bool.and_eq_true, decide_eq_true_eq] at hb
     unfold runBody
-    rw [nested_exit_silent f none m (by omega)]
+    rw [nested_exit_silent f H none m (by omega)]
     simp only [List.nil_append]
-    rw [runBody_spec f delay steps ops (d - 1) _ (by simp; omega) hb.2, expectedBody_cons_closed]
+    rw [runBody_spec f H delay steps ops (d - 1) _ (by simp; omega) hb.2, expectedBody_cons_closed]
     simp [lastRaised_cons, faultTag]
   | .mark k :: ops, d, m, h, hb => by
     simp only [balanced] at hb
     unfold runBody
-    rw [runBody_spec f delay steps ops d m h hb, expectedBody_cons_mark]
+    rw [runBody_spec f H delay steps ops d m h hb, expectedBody_cons_mark]
     simp [lastRaised_cons, faultTag]
   | .raise k :: ops, d, m, h, hb => by
     unfold runBody
-    rw [propagate_silent f d _ m h, expectedBody_cons_raise]
+    rw [propagate_silent f H d _ m h, expectedBody_cons_raise]
     simp [lastRaised, faultTag]
 
-theorem machExit_last (f : Faults) (exc : Option Tag) (m : Mach) (h : m.rc = 1) :
-    (machExit f exc m).1 = m.cx.map Frame.ev
-    ∧ (machExit f exc m).2.1 = lastRaised f (m.cx.map Frame.ev) exc
-    ∧ (machExit f exc m).2.2.rc = 0 ∧ (machExit f exc m).2.2.cx = [] := by
+/-- the last exit: every registered callback runs; what propagates is the tear-down fault the
+    stack raised, else — `Machine.__exit__` returns `None` — the incoming exception -/
+theorem machExit_last_handling (f : Faults) (H : Handles) (exc : Option Tag) (m : Mach) (h : m.rc = 1) :
+    (machExit f H exc m).1 = m.cx.map Frame.ev
+    ∧ (machExit f H exc m).2.1 = (pendingFault f H (m.cx.map Frame.ev) none).or exc
+    ∧ (machExit f H exc m).2.2.rc = 0 ∧ (machExit f H exc m).2.2.cx = [] := by
   unfold machExit
   have : (m.rc - 1 == 0) = true := by simp [h]
   simp only [this, if_true]
-  obtain ⟨u1, u2⟩ := unwind_spec f m.cx exc m.env
-  exact ⟨u1, u2, trivial, trivial⟩
+  obtain ⟨u1, u2⟩ := unwind_spec_handling f H m.cx { exc := exc } m.env
+  refine ⟨u1, ?_, trivial, trivial⟩
+  simp only [u2]
+  rfl
 
-/-- **First entry.**  From counter 0 `__enter__` either brings every step up (counter 1, the exit
-    stack holds exactly the tear-down owed) or, at the first step that raises, tears down what had
-    been begun — in reverse, each once, continuing past faults — and leaves counter 0 and an empty
-    stack; the exception is the last one raised. -/
-theorem machEnter_fresh (f : Faults) (delay : Nat) (steps : List Step) (m : Mach) (h : m.rc = 0) :
-    ((machEnter f delay steps m).2.1 = none →
-        noSleep (machEnter f delay steps m).1 = expectedInit steps f
+theorem machExit_last (f : Faults) (H : Handles) (hno : ∀ i, H i = false) (exc : Option Tag) (m : Mach) (h : m.rc = 1) :
+    (machExit f H exc m).1 = m.cx.map Frame.ev
+    ∧ (machExit f H exc m).2.1 = lastRaised f (m.cx.map Frame.ev) exc
+    ∧ (machExit f H exc m).2.2.rc = 0 ∧ (machExit f H exc m).2.2.cx = [] := by
+  obtain ⟨x1, x2, x3, x4⟩ := machExit_last_handling f H exc m h
+  refine ⟨x1, ?_, x3, x4⟩
+  have hH : H = fun _ => false := funext hno
+  rw [x2, hH, pendingFault_nohandle f _ _ _ (fun e _ => handlesEv_none e)]
+  exact lastRaised_or f _ none exc
+
+/-- without handling steps "tear-down fault not handled further out, else the own exception" is
+    "the last exception raised" -/
+theorem or_plain (f : Faults) (H : Handles) (hno : ∀ i, H i = false) (pre st : List Ev) :
+    (pendingFault f H st none).or (lastRaised f pre none) = lastRaised f (pre ++ st) none := by
+  have hH : H = fun _ => false := funext hno
+  rw [hH, pendingFault_nohandle f _ _ _ (fun e _ => handlesEv_none e), lastRaised_or, lastRaised_append]
+  rfl
+
+/-- **First entry, with handling steps.**  From counter 0 `__enter__` either brings every step up
+    (counter 1, the exit stack holds exactly the tear-down owed) or, at the first step that raises,
+    tears down what had been begun — in reverse, each once, continuing past faults and past
+    handling steps — and leaves counter 0 and an empty stack; the exception is a tear-down fault
+    that no step further out handled, else the set-up's own exception (whatever was handled). -/
+theorem machEnter_fresh_handling (f : Faults) (H : Handles) (delay : Nat) (steps : List Step) (m : Mach) (h : m.rc = 0) :
+    ((machEnter f H delay steps m).2.1 = none →
+        noSleep (machEnter f H delay steps m).1 = expectedInit steps f
         ∧ (∀ e ∈ expectedInit steps f, raises f e = false)
-        ∧ (machEnter f delay steps m).2.2.rc = 1
-        ∧ (machEnter f delay steps m).2.2.cx.map Frame.ev = teardown f (expectedInit steps f))
-    ∧ ((machEnter f delay steps m).2.1 ≠ none →
-        noSleep (machEnter f delay steps m).1 = expectedInit steps f ++ teardown f (expectedInit steps f)
+        ∧ (machEnter f H delay steps m).2.2.rc = 1
+        ∧ (machEnter f H delay steps m).2.2.cx.map Frame.ev = teardown f (expectedInit steps f))
+    ∧ ((machEnter f H delay steps m).2.1 ≠ none →
+        noSleep (machEnter f H delay steps m).1 = expectedInit steps f ++ teardown f (expectedInit steps f)
         ∧ (expectedInit steps f).all (fun e => !raises f e) = false
-        ∧ (machEnter f delay steps m).2.1
-            = lastRaised f (expectedInit steps f ++ teardown f (expectedInit steps f)) none
-        ∧ (machEnter f delay steps m).2.2.rc = 0 ∧ (machEnter f delay steps m).2.2.cx = []) := by
-  obtain ⟨extra, i1, i2, i3, i4, i5⟩ := enterSteps_spec f delay steps [] m.env
+        ∧ (machEnter f H delay steps m).2.1
+            = (pendingFault f H (stackTeardown f (expectedInit steps f)) none).or
+                (lastRaised f (expectedInit steps f ++ ownCleanup f (expectedInit steps f)) none)
+        ∧ (machEnter f H delay steps m).2.2.rc = 0 ∧ (machEnter f H delay steps m).2.2.cx = []) := by
+  obtain ⟨i1, i2, i3, i4, i5⟩ := enterSteps_split f delay steps [] m.env
   unfold machEnter
   have hrc : ¬ (m.rc + 1 > 1) := by omega
   simp only [hrc, if_false]
@@ -285,40 +363,63 @@ theorem machEnter_fresh (f : Faults) (delay : Nat) (steps : List Step) (m : Mach
   simp only [List.map_nil, List.append_nil] at i1 i2 i3 i4 i5
   cases r with
   | none =>
-    obtain ⟨a, b⟩ := i4 rfl
-    subst b
-    simp only [List.append_nil, List.nil_append] at i1 i2
+    have a := i4 rfl
+    obtain ⟨b1, b2⟩ := ownCleanup_of_none f a
+    rw [b1, List.append_nil] at i1
+    rw [b2] at i2
     refine ⟨fun _ => ⟨i1, a, by simp [h], i2⟩, fun hne => absurd rfl hne⟩
   | some t =>
     simp only
-    obtain ⟨x1, x2, x3, x4⟩ := machExit_last f (some t) { rc := m.rc + 1, cx := cx, env := env } (by simp [h])
+    obtain ⟨x1, x2, x3, x4⟩ := machExit_last_handling f H (some t) { rc := m.rc + 1, cx := cx, env := env } (by simp [h])
     refine ⟨fun hn => ?_, fun _ => ⟨?_, i5 (by simp), ?_, x3, x4⟩⟩
     · rw [x2] at hn
-      have := lastRaised_isSome f (cx.map Frame.ev) t
-      simp [hn] at this
-    · rw [noSleep_append, i1, x1, noSleep_frames, List.append_assoc, i2]
-    · rw [x2, i3, ← lastRaised_append, List.append_assoc, i2]
+      cases hp : pendingFault f H (List.map Frame.ev cx) none <;> simp [hp] at hn
+    · rw [noSleep_append, i1, x1, noSleep_frames, List.append_assoc, i2, ← teardown_split]
+    · rw [x2, i3, i2]
 
-/-- **One session.**  For every step list, fault assignment, balanced body, environment and exit
-    stack left behind, a `with m: body` started at counter 0 produces the specified log, hands the
-    last exception raised to the caller and ends at counter 0 with an empty exit stack. -/
-theorem session_spec (delay : Nat) (steps : List Step) (s : Session) (m : Mach)
+/-- **First entry** of a composition without handling steps: the exception is the last one raised. -/
+theorem machEnter_fresh (f : Faults) (H : Handles) (hno : ∀ i, H i = false) (delay : Nat) (steps : List Step) (m : Mach)
+    (h : m.rc = 0) :
+    ((machEnter f H delay steps m).2.1 = none →
+        noSleep (machEnter f H delay steps m).1 = expectedInit steps f
+        ∧ (∀ e ∈ expectedInit steps f, raises f e = false)
+        ∧ (machEnter f H delay steps m).2.2.rc = 1
+        ∧ (machEnter f H delay steps m).2.2.cx.map Frame.ev = teardown f (expectedInit steps f))
+    ∧ ((machEnter f H delay steps m).2.1 ≠ none →
+        noSleep (machEnter f H delay steps m).1 = expectedInit steps f ++ teardown f (expectedInit steps f)
+        ∧ (expectedInit steps f).all (fun e => !raises f e) = false
+        ∧ (machEnter f H delay steps m).2.1
+            = lastRaised f (expectedInit steps f ++ teardown f (expectedInit steps f)) none
+        ∧ (machEnter f H delay steps m).2.2.rc = 0 ∧ (machEnter f H delay steps m).2.2.cx = []) := by
+  obtain ⟨hok, herr⟩ := machEnter_fresh_handling f H delay steps m h
+  refine ⟨hok, fun hne => ?_⟩
+  obtain ⟨e1, e2, e3, e4, e5⟩ := herr hne
+  refine ⟨e1, e2, ?_, e4, e5⟩
+  rw [e3, or_plain f H hno, List.append_assoc, ← teardown_split]
+
+/-- **One session, with handling steps.**  For every step list — any of the steps may handle the
+    exception passing through it —, fault assignment, balanced body, environment and exit stack
+    left behind, a `with m: body` started at counter 0 produces the specified log (every started
+    step torn down once, in reverse), hands to the caller the tear-down fault that no step further
+    out handled, else the set-up's / body's own exception, and ends at counter 0 with an empty exit
+    stack. -/
+theorem session_spec_handling (delay : Nat) (steps : List Step) (s : Session) (m : Mach)
     (hrc : m.rc = 0) (hb : balanced s.body 0 = true) :
     noSleep (runSession delay steps s m).1.trace = expectedTrace steps s.f s.body
-    ∧ (runSession delay steps s m).1.exc = lastRaised s.f (expectedTrace steps s.f s.body) none
+    ∧ (runSession delay steps s m).1.exc = expectedExc steps s.f s.body
     ∧ (runSession delay steps s m).1.rc = 0
     ∧ (runSession delay steps s m).2.rc = 0 ∧ (runSession delay steps s m).2.cx = [] := by
   unfold runSession
   have hrc0 : (advance s.gap m).rc = 0 := hrc
   generalize advance s.gap m = m0 at hrc0 ⊢
-  obtain ⟨hok, herr⟩ := machEnter_fresh s.f delay steps m0 hrc0
-  generalize machEnter s.f delay steps m0 = R at hok herr ⊢
+  obtain ⟨hok, herr⟩ := machEnter_fresh_handling s.f (handlesOf steps) delay steps m0 hrc0
+  generalize machEnter s.f (handlesOf steps) delay steps m0 = R at hok herr ⊢
   obtain ⟨ev1, r1, m1⟩ := R
   simp only at hok herr
   cases r1 with
   | some t =>
     obtain ⟨e1, e2, e3, e4, e5⟩ := herr (by simp)
-    simp only [expectedTrace, e2]
+    simp only [expectedTrace, expectedExc, survivingFault, ownExc, ownTrace, e2]
     refine ⟨?_, ?_, ?_, e4, e5⟩
     · simpa using e1
     · simpa using e3
@@ -327,16 +428,38 @@ theorem session_spec (delay : Nat) (steps : List Step) (s : Session) (m : Mach)
     obtain ⟨o1, o2, o3, o4⟩ := hok rfl
     have hall : (expectedInit steps s.f).all (fun e => !raises s.f e) = true :=
       (all_not_raises_iff _ _).mpr o2
+    obtain ⟨b1, b2⟩ := ownCleanup_of_none s.f o2
     simp only
-    rw [runBody_spec s.f delay steps s.body 0 m1 (by simp [o3]) hb]
+    rw [runBody_spec s.f (handlesOf steps) delay steps s.body 0 m1 (by simp [o3]) hb]
     simp only
-    obtain ⟨x1, x2, x3, x4⟩ := machExit_last s.f (lastRaised s.f (expectedBody s.body) none) { m1 with rc := 1 } rfl
-    simp only [expectedTrace, hall, if_true]
+    obtain ⟨x1, x2, x3, x4⟩ := machExit_last_handling s.f (handlesOf steps)
+      (lastRaised s.f (expectedBody s.body) none) { m1 with rc := 1 } rfl
+    simp only [expectedTrace, expectedExc, survivingFault, ownExc, ownTrace, hall, if_true, b1, b2, List.append_nil]
     refine ⟨?_, ?_, ?_, x3, x4⟩
     · rw [noSleep_append, noSleep_append, o1, x1, noSleep_frames, o4]
       rw [noSleep_expectedBody]
-    · rw [x2, o4, lastRaised_append, lastRaised_append, lastRaised_of_none s.f _ _ o2]
+    · rw [x2, o4, lastRaised_append, lastRaised_of_none s.f _ _ o2]
     · simp [x3]
+
+/-- without handling steps the caller gets the last exception raised along the log -/
+theorem expectedExc_plain (steps : List Step) (hno : ∀ s ∈ steps, s.handles = false) (f : Faults) (body : List Op) :
+    expectedExc steps f body = lastRaised f (expectedTrace steps f body) none := by
+  unfold expectedExc survivingFault ownExc
+  rw [or_plain f (handlesOf steps) (fun i => by rw [handlesOf_none hno])]
+  unfold ownTrace expectedTrace
+  simp only [List.append_assoc]
+  rw [← teardown_split]
+
+/-- **One session** of a composition without handling steps: the specified log, the last exception
+    raised reaches the caller, counter 0 and an empty exit stack afterwards. -/
+theorem session_spec (delay : Nat) (steps : List Step) (hno : ∀ s ∈ steps, s.handles = false) (s : Session) (m : Mach)
+    (hrc : m.rc = 0) (hb : balanced s.body 0 = true) :
+    noSleep (runSession delay steps s m).1.trace = expectedTrace steps s.f s.body
+    ∧ (runSession delay steps s m).1.exc = lastRaised s.f (expectedTrace steps s.f s.body) none
+    ∧ (runSession delay steps s m).1.rc = 0
+    ∧ (runSession delay steps s m).2.rc = 0 ∧ (runSession delay steps s m).2.cx = [] := by
+  obtain ⟨a, b, c⟩ := session_spec_handling delay steps s m hrc hb
+  exact ⟨a, by rw [b, expectedExc_plain steps hno], c⟩
 
 /-- **Step order.**  The order in which `Machine.__enter__` visits the classes (three filters over
     the MRO, with `_connect`, `_init_shell` and `init` resolved in between) is the documented one
@@ -362,34 +485,35 @@ theorem machSteps_eq_specOrder (mro : List Step)
     congr 1; funext s; cases s.kind <;> rfl
   rw [h2]
 
-theorem mroFrom_filter_length (k : Kind) : ∀ (ks : List Kind) (i : Nat),
-    ((mroFrom i ks).filter (fun s => s.kind == k)).length = ks.count k
+theorem mroFrom_filter_length (hs : List Nat) (k : Kind) : ∀ (ks : List Kind) (i : Nat),
+    ((mroFrom hs i ks).filter (fun s => s.kind == k)).length = ks.count k
   | [], _ => rfl
   | k' :: ks, i => by
     simp only [mroFrom, List.filter_cons, List.count_cons]
     by_cases h : k' = k
-    · subst h; simp [mroFrom_filter_length k' ks (i + 1)]
+    · subst h; simp [mroFrom_filter_length hs k' ks (i + 1)]
     · have : (k' == k) = false := by simpa using h
-      simp [this, mroFrom_filter_length k ks (i + 1)]
+      simp [this, mroFrom_filter_length hs k ks (i + 1)]
 
 theorem runSessions_spec (delay : Nat) (steps : List Step) : ∀ (ss : List Session) (m : Mach), m.rc = 0 →
     (∀ s ∈ ss, balanced s.body 0 = true) →
     specSessions steps ss (runSessions delay steps ss m) = true
   | [], _, _, _ => rfl
   | s :: ss, m, h, hb => by
-    obtain ⟨a, b, c, d, _⟩ := session_spec delay steps s m h (hb s (by simp))
+    obtain ⟨a, b, c, d, _⟩ := session_spec_handling delay steps s m h (hb s (by simp))
     unfold runSessions
     simp only [specSessions, specSession, Bool.and_eq_true, beq_iff_eq]
     refine ⟨⟨⟨a, b⟩, c⟩, runSessions_spec delay steps ss _ d (fun s' hs' => hb s' (by simp [hs']))⟩
 
-/-- **C13.**  For every well-formed case — every composition, every fault assignment of every
-    session, every balanced nesting history — the model's observation satisfies the specification,
-    including the fresh fault-free entry after the last session. -/
+/-- **C13.**  For every well-formed case — every composition with any of its steps handling the
+    exception passing through it, every fault assignment of every session, every balanced nesting
+    history — the model's observation satisfies the specification, including the fresh fault-free
+    entry after the last session. -/
 theorem run_spec (c : Case) (h : c.wf = true) : Spec.C13 c (run c) = true := by
   unfold Spec.C13
   rw [h, Bool.true_and]
   simp only [Case.wf, Bool.and_eq_true, beq_iff_eq, decide_eq_true_eq, List.all_eq_true] at h
-  obtain ⟨⟨⟨⟨⟨hc, hs⟩, _⟩, hh⟩, hl⟩, hb⟩ := h
+  obtain ⟨⟨⟨⟨⟨⟨hc, hs⟩, _⟩, hh⟩, hl⟩, hb⟩, _⟩ := h
   unfold run
   rw [machSteps_eq_specOrder c.mro
     (by unfold Case.mro; rw [mroFrom_filter_length]; omega)
@@ -406,12 +530,52 @@ theorem run_spec (c : Case) (h : c.wf = true) : Spec.C13 c (run c) = true := by
 
 /-- **An exception reaches the caller iff something raised**: the caller of a session sees no
     exception exactly when no callback in the log (and no body `raise`) raised. -/
-theorem exc_iff_raised (delay : Nat) (steps : List Step) (s : Session) (m : Mach)
+theorem exc_iff_raised (delay : Nat) (steps : List Step) (hno : ∀ s ∈ steps, s.handles = false) (s : Session) (m : Mach)
     (hrc : m.rc = 0) (hb : balanced s.body 0 = true) :
     (runSession delay steps s m).1.exc = none
       ↔ ∀ e ∈ (runSession delay steps s m).1.trace, raises s.f e = false := by
-  obtain ⟨a, b, _⟩ := session_spec delay steps s m hrc hb
+  obtain ⟨a, b, _⟩ := session_spec delay steps hno s m hrc hb
   rw [b, ← a, lastRaised_noSleep, lastRaised_none_iff]
+
+/-- … with handling steps: no exception reaches the caller exactly when neither the set-up nor the
+    body raised and no tear-down fault survived the steps further out (a tear-down fault that a
+    step further out handled is in the log but does not reach the caller) -/
+theorem exc_iff_raised_handling (delay : Nat) (steps : List Step) (s : Session) (m : Mach)
+    (hrc : m.rc = 0) (hb : balanced s.body 0 = true) :
+    (runSession delay steps s m).1.exc = none
+      ↔ (∀ e ∈ ownTrace steps s.f s.body, raises s.f e = false) ∧ survivingFault steps s.f = none := by
+  obtain ⟨_, b, _⟩ := session_spec_handling delay steps s m hrc hb
+  rw [b, expectedExc, Option.or_eq_none_iff, ownExc, lastRaised_none_iff]
+  exact And.comm
+
+theorem mem_stackTeardown {steps : List Step} {f : Faults} {e : Ev}
+    (h : e ∈ stackTeardown f (expectedInit steps f)) : e ∈ teardown f (expectedInit steps f) := by
+  rw [teardown_split]; exact List.mem_append_right _ h
+
+theorem mem_ownTrace {steps : List Step} {f : Faults} {body : List Op} {e : Ev}
+    (h : e ∈ ownTrace steps f body) : e ∈ expectedTrace steps f body := by
+  simp only [ownTrace, List.mem_append] at h
+  simp only [expectedTrace, List.mem_append]
+  rcases h with (h | h) | h
+  · exact Or.inl (Or.inl h)
+  · exact Or.inl (Or.inr h)
+  · right
+    rw [teardown_split]
+    exact List.mem_append_left _ h
+
+/-- whatever the steps handle: when nothing in the log raised, no exception reaches the caller -/
+theorem no_raise_no_exc (delay : Nat) (steps : List Step) (s : Session) (m : Mach)
+    (hrc : m.rc = 0) (hb : balanced s.body 0 = true)
+    (h : ∀ e ∈ (runSession delay steps s m).1.trace, raises s.f e = false) :
+    (runSession delay steps s m).1.exc = none := by
+  obtain ⟨a, _⟩ := session_spec_handling delay steps s m hrc hb
+  have h' : ∀ e ∈ expectedTrace steps s.f s.body, raises s.f e = false := by
+    intro e he
+    rw [← a] at he
+    exact h e (List.mem_filter.mp he).1
+  rw [exc_iff_raised_handling delay steps s m hrc hb]
+  exact ⟨fun e he => h' e (mem_ownTrace he),
+    pendingFault_of_none _ _ _ (fun e he => h' e (List.mem_append_right _ (mem_stackTeardown he)))⟩
 
 theorem probe_f : probe.f = fun _ => false := by
   funext t; simp [Session.f, probe]
@@ -425,8 +589,8 @@ theorem fresh_entry_reinit (delay : Nat) (steps : List Step) (s : Session) (m : 
         = steps.flatMap beginEvs ++ teardown (fun _ => false) (steps.flatMap beginEvs)
     ∧ (runSession delay steps probe (runSession delay steps s m).2).1.exc = none
     ∧ (runSession delay steps probe (runSession delay steps s m).2).1.rc = 0 := by
-  obtain ⟨_, _, _, d, _⟩ := session_spec delay steps s m hrc hb
-  obtain ⟨a, b, c, _⟩ := session_spec delay steps probe (runSession delay steps s m).2 d rfl
+  obtain ⟨_, _, _, d, _⟩ := session_spec_handling delay steps s m hrc hb
+  obtain ⟨a, b, c, _⟩ := session_spec_handling delay steps probe (runSession delay steps s m).2 d rfl
   have hnone : ∀ e ∈ steps.flatMap beginEvs, raises (fun _ => false) e = false := by
     intro e he
     obtain ⟨s', _, hs'⟩ := List.mem_flatMap.mp he
@@ -438,8 +602,15 @@ theorem fresh_entry_reinit (delay : Nat) (steps : List Step) (s : Session) (m : 
     simp only [expectedTrace, hini, (all_not_raises_iff _ _).mpr hnone, if_true]
     simp [probe, expectedBody, uptoFirst]
   refine ⟨by rw [a, hT], ?_, c⟩
-  rw [b, hT, probe_f, lastRaised_none_iff]
+  apply no_raise_no_exc delay steps probe _ d rfl
   intro e he
+  by_cases hsl : isSleep e = true
+  · cases e <;> simp [isSleep] at hsl
+    rfl
+  have he : e ∈ noSleep (runSession delay steps probe (runSession delay steps s m).2).1.trace :=
+    List.mem_filter.mpr ⟨he, by simpa using hsl⟩
+  rw [a, hT] at he
+  rw [probe_f]
   rcases List.mem_append.mp he with he | he
   · exact hnone e he
   · simp only [teardown, List.mem_reverse, List.mem_flatMap] at he
@@ -452,7 +623,7 @@ theorem power_off_count (delay : Nat) (steps : List Step) (s : Session) (m : Mac
     (hrc : m.rc = 0) (hb : balanced s.body 0 = true) (id : Nat) :
     List.count (.off id) (runSession delay steps s m).1.trace
       = List.count (.on id) (runSession delay steps s m).1.trace := by
-  obtain ⟨a, _⟩ := session_spec delay steps s m hrc hb
+  obtain ⟨a, _⟩ := session_spec_handling delay steps s m hrc hb
   rw [← count_noSleep _ rfl, ← count_noSleep (.on id) rfl, a]
   exact count_expectedTrace steps s.f s.body id
 
@@ -464,7 +635,7 @@ theorem power_off_position (delay : Nat) (steps : List Step) (s : Session) (m : 
     (h : expectedInit steps s.f = A ++ .on id :: B) :
     ∃ bod, noSleep (runSession delay steps s m).1.trace
       = (A ++ .on id :: B) ++ bod ++ (teardown s.f B ++ .off id :: teardown s.f A) := by
-  obtain ⟨a, _⟩ := session_spec delay steps s m hrc hb
+  obtain ⟨a, _⟩ := session_spec_handling delay steps s m hrc hb
   refine ⟨if (A ++ Ev.on id :: B).all (fun e => !raises s.f e) then expectedBody s.body else [], ?_⟩
   rw [a]
   unfold expectedTrace
@@ -478,7 +649,7 @@ theorem power_off_position (delay : Nat) (steps : List Step) (s : Session) (m : 
 theorem on_mem_trace_iff (delay : Nat) (steps : List Step) (s : Session) (m : Mach)
     (hrc : m.rc = 0) (hb : balanced s.body 0 = true) (id : Nat) :
     Ev.on id ∈ (runSession delay steps s m).1.trace ↔ Ev.on id ∈ expectedInit steps s.f := by
-  obtain ⟨a, _⟩ := session_spec delay steps s m hrc hb
+  obtain ⟨a, _⟩ := session_spec_handling delay steps s m hrc hb
   have h1 : Ev.on id ∈ (runSession delay steps s m).1.trace ↔ Ev.on id ∈ noSleep (runSession delay steps s m).1.trace := by
     simp [noSleep, isSleep]
   rw [h1, a]
@@ -516,13 +687,13 @@ theorem refused_no_power (delay : Nat) (steps : List Step) (s : Session) (m : Ma
     `X ++ poweroff w :: Y` with the connector's `__exit__` in `Y` — the board is switched off while
     the console connection is still open. -/
 theorem conn_exit_after_power_off (c : Case) (hwf : c.wf = true) (s : Session) (m : Mach)
-    (hrc : m.rc = 0) (hb : balanced s.body 0 = true) (k w : Nat) (hk : (⟨k, .conn⟩ : Step) ∈ c.mro)
+    (hrc : m.rc = 0) (hb : balanced s.body 0 = true) (k w : Nat) (hd : Bool) (hk : (⟨k, .conn, hd⟩ : Step) ∈ c.mro)
     (hon : Ev.on w ∈ (runSession c.delay (machSteps c.mro) s m).1.trace) :
     ∃ X Y, noSleep (runSession c.delay (machSteps c.mro) s m).1.trace = X ++ .off w :: Y
       ∧ Ev.exit k ∈ Y := by
   have hsteps : machSteps c.mro = specOrder c.mro := by
     simp only [Case.wf, Bool.and_eq_true, beq_iff_eq, decide_eq_true_eq] at hwf
-    obtain ⟨⟨⟨⟨⟨hc, hs⟩, _⟩, hh⟩, hl⟩, _⟩ := hwf
+    obtain ⟨⟨⟨⟨⟨⟨hc, hs⟩, _⟩, hh⟩, hl⟩, _⟩, _⟩ := hwf
     exact machSteps_eq_specOrder c.mro
       (by unfold Case.mro; rw [mroFrom_filter_length]; omega)
       (by unfold Case.mro; rw [mroFrom_filter_length]; omega)
@@ -534,7 +705,7 @@ theorem conn_exit_after_power_off (c : Case) (hwf : c.wf = true) (s : Session) (
   obtain ⟨bod, htr⟩ := power_off_position c.delay (specOrder c.mro) s m hrc hb w A B hAB
   refine ⟨A ++ Ev.on w :: B ++ bod ++ teardown s.f B, teardown s.f A, by rw [htr]; simp, ?_⟩
   -- the connector's enter is in `A` and did not raise
-  obtain ⟨P, Q, hPQ, hkP, hnoP⟩ := begin_split c.mro k hk
+  obtain ⟨P, Q, hPQ, hkP, hnoP⟩ := begin_split c.mro k hd hk
   obtain ⟨r, hr⟩ := uptoFirst_prefix (raises s.f) ((specOrder c.mro).flatMap beginEvs)
   have hA : ∀ a ∈ A, raises s.f a = false := uptoFirst_before (by unfold expectedInit at hAB; exact hAB)
   have hkA : Ev.enter k ∈ A := by
@@ -567,21 +738,21 @@ theorem power_off_exactly_once (c : Case) (hwf : c.wf = true) (s : Session) (m :
   have hpos : 0 < List.count (.on w) (runSession c.delay (machSteps c.mro) s m).1.trace :=
     List.count_pos_iff.mpr hon
   simp only [Case.wf, Bool.and_eq_true, beq_iff_eq, decide_eq_true_eq] at hwf
-  obtain ⟨⟨⟨⟨⟨hc, hs⟩, hp⟩, hh⟩, hl⟩, _⟩ := hwf
+  obtain ⟨⟨⟨⟨⟨⟨hc, hs⟩, hp⟩, hh⟩, hl⟩, _⟩, _⟩ := hwf
   have hsteps : machSteps c.mro = specOrder c.mro :=
     machSteps_eq_specOrder c.mro
       (by unfold Case.mro; rw [mroFrom_filter_length]; omega)
       (by unfold Case.mro; rw [mroFrom_filter_length]; omega)
       (by unfold Case.mro; rw [mroFrom_filter_length]; omega)
       (by unfold Case.mro; rw [mroFrom_filter_length]; omega)
-  obtain ⟨a, _⟩ := session_spec c.delay (machSteps c.mro) s m hrc hb
+  obtain ⟨a, _⟩ := session_spec_handling c.delay (machSteps c.mro) s m hrc hb
   have hle : List.count (.on w) (runSession c.delay (machSteps c.mro) s m).1.trace ≤ 1 := by
     rw [← count_noSleep (.on w) rfl, a, count_on_expectedTrace, hsteps]
     obtain ⟨r, hr⟩ := uptoFirst_prefix (raises s.f) ((specOrder c.mro).flatMap beginEvs)
     have h1 := count_on_specOrder_le w c.mro
     rw [hr, List.count_append] at h1
     have h2 : (c.mro.filter (fun s => s.kind == .power)).length = c.bases.count .power := by
-      unfold Case.mro; exact mroFrom_filter_length .power c.bases 0
+      unfold Case.mro; exact mroFrom_filter_length c.handlers .power c.bases 0
     unfold expectedInit
     omega
   omega
@@ -614,7 +785,7 @@ example : ((run ex1).map (·.trace))[0]? = some [.enter 0, .enter 1, .enter 2, .
 example : Spec.C13 ex1 (run ex1) = true := run_spec ex1 (by decide)
 
 /-- the hypotheses of `conn_exit_after_power_off` are satisfiable (connector 1, power step 3) -/
-example : (⟨1, .conn⟩ : Step) ∈ ex1.mro
+example : (⟨1, .conn, false⟩ : Step) ∈ ex1.mro
     ∧ Ev.on 3 ∈ (runSession ex1.delay (machSteps ex1.mro) { faults := [.exit 4] } {}).1.trace := by decide
 
 /-- `power_off_exactly_once` on the witness: a failing `poweron` is still followed by exactly one `poweroff` -/
